@@ -435,7 +435,7 @@ def roots_for(tier, seed):
     inter2 = {"name": "4-shares-other-prefix-partial-idle", "sis": "diff-prefix", "nsi": 2, "nsh": 2, "writes": "small", "tick": True, "seed": seed}
     full = {"name": "4-shares-full-writes", "sis": "same-prefix", "nsi": 2, "nsh": 2, "writes": "full", "tick": False, "seed": seed}
     if tier == "quick":
-        return [(one, 40), (inter, 5), (full, 3)]
+        return [(one, 40), (inter, 4), (full, 3)]
     return [(one, 40), (inter, 6), (inter2, 6), (full, 4)]
 
 
